@@ -764,8 +764,9 @@ class SAMIParser(HTMLParser):
         # fix erroneous italics tags
         data = data.replace('<i/>', '<i>')
 
-        # fix awkward tags found in some SAMIs
-        data = data.replace(';>', '>')
+        # fix awkward tags found in some SAMIs (a ';' before the closing
+        # bracket of a tag; the same two characters in text are left alone)
+        data = re.sub(r'(<[^<>]*);>', r'\1>', data)
         HTMLParser.feed(self, data)
 
         # close any tags that remain in the queue
